@@ -130,5 +130,20 @@ def acceptsTy (st : Style) (re : Regex) : Nat → IRDefs → Ty → Json → Tri
       | none => .reject
     | .opt inner => if v.isNull then .accept else acceptsTy st re g defs inner v
     | .union ts => Tri.any (ts.map (fun u => acceptsTy st re g defs u v))
+    | .tagged prop branches =>
+      -- the tag is read from the input (by wire name), must be a string among the tag literals of one
+      -- alternative; only that alternative — its class as patched by the discriminator pass — is tried
+      match v with
+      | .obj kvs =>
+        match kvs.lookup prop with
+        | some (.str tag) =>
+          match branches.find? (fun b => b.1.any (fun a => a.matches (.str tag))) with
+          | some b =>
+            match defs.lookup b.2 with
+            | some d => acceptsTy st re g defs (patchTag prop b.1 d) v
+            | none => .reject
+          | none => .reject
+        | _ => .reject
+      | _ => .reject
 
 end Dcg.Sem.Pyd
